@@ -56,8 +56,9 @@ def handleTab (l : Line) : IO Unit := do
   | some ops =>
     match build ops with
     | none =>
+      -- the call sequence moves to an earlier column: the implementation must refuse it
       IO.println s!"obs {id} out=!panic"
-      IO.println s!"spec {id} layout=ok"
+      IO.println s!"spec {id} layout=panic"
     | some t =>
       let perm := parseNats (l.getD "perm" "-")
       if !validOrder t.cells perm then
